@@ -28,7 +28,10 @@ pub struct Universe {
 
 pub fn cred_desc(name: &str, variant: u64) -> CredDesc {
     // variant selects short-term / long-term credentials; the key *identity* is the name
-    match variant % 4 {
+    match variant % 5 {
+        // passwords that are prefixes of one another (k3 is empty)
+        4 => CredDesc { long: false, user: String::new(), realm: String::new(),
+                        password: match name { "k1" => "secret".into(), "k2" => "secret-2".into(), _ => String::new() } },
         // passwords longer than the HMAC block size that share their first 64 bytes
         3 => CredDesc { long: false, user: String::new(), realm: String::new(), password: format!("{}{}", "0123456789abcdef".repeat(4), name) },
         0 => CredDesc { long: false, user: String::new(), realm: String::new(), password: format!("pässword-{name}") },
@@ -133,6 +136,14 @@ fn payload_attrs(pay: &str, seed: u64) -> Vec<Box<dyn AttributeWrite>> {
     }
     let mut rng = StdRng::seed_from_u64(h);
     let mut v: Vec<Box<dyn AttributeWrite>> = vec![];
+    if pay == "pbig" {
+        // far more than fits a 16-bit length: nonsense as STUN, but "every transmission is the message handed to send"
+        for t in [0x7f10u16, 0x7f11] {
+            let val: Vec<u8> = (0..40000).map(|_| rng.gen()).collect();
+            v.push(Box::new(RawAttribute::new_owned(AttributeType::new(t), val.into_boxed_slice())));
+        }
+        return v;
+    }
     v.push(Box::new(Software::new(&format!("verif {pay} {}", rng.gen::<u16>())).unwrap()));
     if rng.gen_bool(0.5) {
         v.push(Box::new(Priority::new(rng.gen())));
